@@ -1,0 +1,258 @@
+// Copyright 2025 Cisco Systems, Inc. and its affiliates
+//
+// SPDX-License-Identifier: Apache-2.0
+
+//! verification hooks, compiled only with the cargo feature `verif-hooks`.
+//!
+//! records, per thread, a trace of what a generation call did (frame decision, target
+//! opcode count, and for every emitted opcode the candidate set, the chosen opcode, the
+//! emitted bytes and the simulated stack/memo afterwards) so that an external formal
+//! model can be compared with the implementation. nothing here changes behaviour.
+
+use std::cell::{Cell, RefCell};
+use std::rc::Rc;
+
+use super::Generator;
+use crate::opcodes::OpcodeKind;
+use crate::stack::StackObject;
+
+thread_local! {
+    static TRACE: RefCell<Option<Vec<String>>> = const { RefCell::new(None) };
+    static PHASE: Cell<u8> = const { Cell::new(0) };
+    static ORIG: RefCell<Vec<u8>> = const { RefCell::new(Vec::new()) };
+    static MUTATED: Cell<u32> = const { Cell::new(0) };
+    static REWRITTEN: Cell<u32> = const { Cell::new(0) };
+    static TAIL_LEN: Cell<usize> = const { Cell::new(0) };
+    static ALIASES: Cell<bool> = const { Cell::new(false) };
+}
+
+/// start recording on this thread (drops any earlier trace).
+pub fn start() {
+    TRACE.with(|t| *t.borrow_mut() = Some(Vec::new()));
+    PHASE.with(|p| p.set(0));
+    MUTATED.with(|m| m.set(0));
+    REWRITTEN.with(|m| m.set(0));
+}
+
+/// also record `Rc` identities and nesting depth per step (slower).
+pub fn set_aliases(on: bool) {
+    ALIASES.with(|a| a.set(on));
+}
+
+/// stop recording and return the trace lines.
+pub fn take() -> Vec<String> {
+    TRACE.with(|t| t.borrow_mut().take()).unwrap_or_default()
+}
+
+fn record(line: String) {
+    TRACE.with(|t| {
+        if let Some(v) = t.borrow_mut().as_mut() {
+            v.push(line);
+        }
+    });
+}
+
+fn recording() -> bool {
+    TRACE.with(|t| t.borrow().is_some())
+}
+
+fn hex(bytes: &[u8]) -> String {
+    if bytes.is_empty() {
+        return "-".to_string();
+    }
+    bytes.iter().map(|b| format!("{:02x}", b)).collect()
+}
+
+fn kind_char(obj: &StackObject) -> char {
+    match obj {
+        StackObject::Int(_) => 'I',
+        StackObject::Float(_) => 'F',
+        StackObject::Bool(_) => 'B',
+        StackObject::None => 'N',
+        StackObject::Bytes(_) => 'Y',
+        StackObject::String(_) => 'S',
+        StackObject::ByteArray(_) => 'A',
+        StackObject::List(_) => 'L',
+        StackObject::Tuple(_) => 'T',
+        StackObject::Dict(_) => 'D',
+        StackObject::Set(_) => 'E',
+        StackObject::FrozenSet(_) => 'Z',
+        StackObject::Mark => 'M',
+        StackObject::Global { .. } => 'G',
+        StackObject::Instance(_) => 'O',
+        StackObject::Callable(_) => 'C',
+        StackObject::Extension(_) => 'X',
+        StackObject::Any => 'Q',
+    }
+}
+
+fn state_string(gen: &Generator) -> String {
+    let stack: String = gen
+        .state
+        .stack
+        .inner
+        .iter()
+        .map(|o| kind_char(&o.borrow()))
+        .collect();
+    let mut keys: Vec<usize> = gen.state.memo.keys().copied().collect();
+    keys.sort_unstable();
+    let memo: Vec<String> = keys
+        .iter()
+        .map(|k| format!("{}:{}", k, kind_char(&gen.state.memo[k].borrow())))
+        .collect();
+    format!(
+        "{} {}",
+        if stack.is_empty() { "-".to_string() } else { stack },
+        if memo.is_empty() { "-".to_string() } else { memo.join(",") }
+    )
+}
+
+/// canonical `Rc` identities (numbered by first appearance) of the roots and the edges
+/// between cells reachable from them, plus the maximal nesting depth.
+fn alias_string(gen: &Generator) -> String {
+    use std::collections::HashMap;
+    let mut ids: HashMap<usize, usize> = HashMap::new();
+    let mut edges: Vec<(usize, usize)> = Vec::new();
+    let mut work: Vec<crate::stack::StackObjectRef> = Vec::new();
+    let mut id_of = |r: &crate::stack::StackObjectRef,
+                     work: &mut Vec<crate::stack::StackObjectRef>|
+     -> usize {
+        let p = Rc::as_ptr(&r.0) as *const () as usize;
+        let n = ids.len();
+        *ids.entry(p).or_insert_with(|| {
+            work.push(r.clone());
+            n
+        })
+    };
+    let stack: Vec<usize> = gen
+        .state
+        .stack
+        .inner
+        .iter()
+        .map(|r| id_of(r, &mut work))
+        .collect();
+    let mut keys: Vec<usize> = gen.state.memo.keys().copied().collect();
+    keys.sort_unstable();
+    let memo: Vec<String> = keys
+        .iter()
+        .map(|k| format!("{}:{}", k, id_of(&gen.state.memo[k], &mut work)))
+        .collect();
+    let mut done = 0;
+    while done < work.len() {
+        let cell = work[done].clone();
+        done += 1;
+        let from = id_of(&cell, &mut work);
+        let children: Vec<crate::stack::StackObjectRef> = match &*cell.borrow() {
+            StackObject::List(v) | StackObject::Tuple(v) => v.clone(),
+            StackObject::Dict(m) => m.iter().flat_map(|(k, v)| [k.clone(), v.clone()]).collect(),
+            StackObject::Set(s) | StackObject::FrozenSet(s) => s.iter().cloned().collect(),
+            StackObject::Instance(i) => vec![i.callable.clone(), i.args.clone()],
+            StackObject::Callable(c) => vec![c.clone()],
+            _ => Vec::new(),
+        };
+        for c in children {
+            let to = id_of(&c, &mut work);
+            edges.push((from, to));
+        }
+    }
+    edges.sort_unstable();
+    edges.dedup();
+    let e: Vec<String> = edges.iter().map(|(a, b)| format!("{}>{}", a, b)).collect();
+    let s: Vec<String> = stack.iter().map(|i| i.to_string()).collect();
+    format!(
+        "ALIAS {} {} {}",
+        if s.is_empty() { "-".to_string() } else { s.join(",") },
+        if memo.is_empty() { "-".to_string() } else { memo.join(",") },
+        if e.is_empty() { "-".to_string() } else { e.join(",") }
+    )
+}
+
+pub(crate) fn meta(gen: &Generator, use_frame: bool, target: usize) {
+    if !recording() {
+        return;
+    }
+    TAIL_LEN.with(|l| l.set(gen.output.len()));
+    record(format!(
+        "META frame={} T={} hdr={}",
+        use_frame as u8,
+        target,
+        hex(&gen.output)
+    ));
+}
+
+pub(crate) fn phase(p: u8, gen: &Generator) {
+    PHASE.with(|c| c.set(p));
+    TAIL_LEN.with(|l| l.set(gen.output.len()));
+}
+
+pub(crate) fn orig(delta: &[u8]) {
+    ORIG.with(|o| {
+        let mut o = o.borrow_mut();
+        o.clear();
+        o.extend_from_slice(delta);
+    });
+}
+
+pub(crate) fn mutated() {
+    MUTATED.with(|m| m.set(m.get() + 1));
+}
+
+pub(crate) fn rewritten(changed: bool) {
+    if changed {
+        REWRITTEN.with(|m| m.set(m.get() + 1));
+    }
+}
+
+pub(crate) fn step(gen: &Generator, valid: &[OpcodeKind], chosen: OpcodeKind, len_before: usize) {
+    if !recording() {
+        return;
+    }
+    let valid: Vec<String> = valid.iter().map(|o| format!("{:?}", o)).collect();
+    let orig = ORIG.with(|o| hex(&o.borrow()));
+    let fin = if gen.output.len() >= len_before {
+        hex(&gen.output[len_before..])
+    } else {
+        "!".to_string()
+    };
+    record(format!(
+        "STEP B {} {:?} {} {} {} m={} r={}",
+        if valid.is_empty() { "-".to_string() } else { valid.join(",") },
+        chosen,
+        orig,
+        fin,
+        state_string(gen),
+        MUTATED.with(|m| m.replace(0)),
+        REWRITTEN.with(|m| m.replace(0)),
+    ));
+    if ALIASES.with(|a| a.get()) {
+        record(alias_string(gen));
+    }
+    ORIG.with(|o| o.borrow_mut().clear());
+}
+
+pub(crate) fn tail_step(gen: &Generator, opcode: OpcodeKind) {
+    let p = PHASE.with(|c| c.get());
+    if p == 0 || !recording() {
+        return;
+    }
+    let before = TAIL_LEN.with(|l| l.replace(gen.output.len()));
+    let bytes = hex(&gen.output[before.min(gen.output.len())..]);
+    record(format!(
+        "STEP {} - {:?} {} {} {} m=0 r=0",
+        if p == 1 { 'T' } else { 'S' },
+        opcode,
+        bytes,
+        bytes,
+        state_string(gen),
+    ));
+    if ALIASES.with(|a| a.get()) {
+        record(alias_string(gen));
+    }
+}
+
+pub(crate) fn done(gen: &Generator) {
+    PHASE.with(|c| c.set(0));
+    if recording() {
+        record(format!("DONE {}", hex(&gen.output)));
+    }
+}
